@@ -630,7 +630,7 @@ fn verdict_case(c: &mut Case<'_>) -> CaseResult {
     }
     // consistency of the honest signers with the reference verifier (harness self-check)
     if alt.is_none() && !want.accepted() {
-        return Err(crate::engine::Stop::Fail { sig: "harness-panic:signer-vs-reference".into(), msg: format!("{which_signer} signed, reference verifier says {want:?}\n{}", req.render()) });
+        return Err(crate::engine::Stop::Fail { sig: "harness-error:signer-vs-reference".into(), msg: format!("{which_signer} signed, reference verifier says {want:?}\n{}", req.render()) });
     }
     if alt.as_ref().is_some_and(|a| a.starts_with("mut:")) && want.accepted() {
         // the mutation did not change the canonical request (e.g. a value equal after canonicalisation): treat as rewrite
